@@ -135,6 +135,8 @@ def run_case(case, tier, known):
          "bounded": case.bounded, "native_probes": []}
   L.USED.clear()
   L.PRECISE_TIES[0] = bool(getattr(case, "precise_ties", False))
+  import pyvc.values as _V
+  _V.STRICT_SHAPES[0] = False
   try:
     ip = new_interp()
     ip.term_mode = case.term_mode
